@@ -48,7 +48,7 @@ func (c17) Budget(tier string) core.Budget {
 	if tier == "thorough" {
 		return core.Budget{Runs: 40000, WallCap: 20 * time.Minute}
 	}
-	return core.Budget{Runs: 640, WallCap: 45 * time.Second}
+	return core.Budget{Runs: 2000, WallCap: 45 * time.Second}
 }
 
 var c17Configs = []string{"restricted", "emptyonly", "disabled", "unrestricted"}
